@@ -27,6 +27,9 @@ type c12Case struct {
 	// Second: a second table ("parcels_2", same schema) written afterwards through the SAME TargetGeopackage, the way
 	// the command line tool handles a source with several tables; its geometries lie 5000 units further east
 	Second *c12Part `json:"second_table,omitempty"`
+	// Names: names of the first and the second table (default parcels, parcels_2): a name that extends the other one,
+	// in either order
+	Names [2]string `json:"table_names,omitempty"`
 	// LocalSRS: the source registers its reference system under srs_id 100001 (organisation EPSG, code 28992)
 	LocalSRS bool `json:"local_srs_id,omitempty"`
 }
@@ -249,6 +252,14 @@ func c12Cases(thorough bool) []c12Case {
 			}
 		}
 	}
+	// two tables whose names extend one another, longer name first / one letter longer: patterns around the page size
+	for _, names := range [][2]string{{"parcels_2", "parcels"}, {"parcels", "parcel"}, {"parcel", "parcels"}} {
+		for _, p1 := range []string{"", "A", "AB"} {
+			for _, p2 := range []string{"", "A", "BAA"} {
+				cs = append(cs, c12Case{Page: 2, N: len(p1), Pattern: p1, Schema: "mixed", GType: "POLYGON", Second: &c12Part{N: len(p2), Pattern: p2}, Names: names})
+			}
+		}
+	}
 	return cs
 }
 
@@ -307,11 +318,15 @@ func c12One(work string, shard int, c c12Case, srcTables map[string][]tgpkg.Tabl
 		key += "/2"
 		td2 := c12Table(c.Schema, c.GType)
 		td2.Name = "parcels_2"
+		if c.Names[0] != "" {
+			tds[0].Name, td2.Name = c.Names[0], c.Names[1]
+			key += "/" + c.Names[0] + "+" + c.Names[1]
+		}
 		tds = append(tds, td2)
 		parts = append(parts, *c.Second)
 	}
 	if _, ok := srcTables[key]; !ok {
-		src := filepath.Join(work, fmt.Sprintf("c12-src-%d-%s-%s-%d-%d.gpkg", shard, c.Schema, c.GType, len(tds), srs.ID))
+		src := filepath.Join(work, fmt.Sprintf("c12-src-%d-%s-%s-%d-%d-%s.gpkg", shard, c.Schema, c.GType, len(tds), srs.ID, c.Names[0]))
 		if err := createSource(src, srs, tds, nil); err != nil {
 			ev.HarnessError("cannot create source: %v", err)
 		}
